@@ -216,6 +216,18 @@ func (f *Frame) call(c *ssa.CallCommon, instr ssa.Value, st *State, reach string
 					return Val{Sort: "Err", Term: errv, GoT: resT}
 				}
 			}
+		case "crypto/sha256.Sum256":
+			// one-shot digest: the same uninterpreted function as the hash object (A-HASH)
+			if len(args) == 1 && args[0].Sort == "Str" {
+				g.useTheory("strings")
+				g.trusted["crypto/sha256 (hash object modelled: Sum(nil) = sha256raw(bytes written))"] = true
+				return Val{Sort: "Str", Term: g.def(f.name(instr), "Str", fmt.Sprintf("(sha256raw %s)", args[0].Term)), GoT: resT}
+			}
+		case "encoding/hex.EncodeToString":
+			if len(args) == 1 && args[0].Sort == "Str" {
+				g.useTheory("strings")
+				return Val{Sort: "Str", Term: g.def(f.name(instr), "Str", fmt.Sprintf("(hexenc %s)", args[0].Term)), GoT: resT}
+			}
 		case "crypto/sha256.New":
 			g.useTheory("strings")
 			h := g.fresh(f.name(instr), "Iface")
